@@ -2375,6 +2375,12 @@ class FST:
         if options.get('to'):
             raise ValueError("cannot replace root node with 'to' option")
 
+        if isinstance(code, FST):
+            if not code.a:
+                raise ValueError('this FST has already been consumed or deleted')
+            if code.parent:
+                raise ValueError('expecting root node')
+
         with self._modifying():
             code = code_as_all(code, options, self._parse_params)
             self._lines = code._lines
